@@ -455,6 +455,9 @@ func (fr *Frame) contractCall(in *ssa.Call, callee *ssa.Function, c *Contract, a
 	}
 	envPost := &Env{fr: fr, vars: post, st: ex.st, old: before, oldVars: vars}
 	for _, cl := range c.Ensures {
+		if cl.Tier == "internal" {
+			continue // talks about the callee's local variables: checked in the callee, not usable here
+		}
 		// one fact per clause, so that hypothesis slicing can drop the heavy ones individually
 		ex.addFact(Implies(fr.cur, fr.evalBool(cl.Expr, envPost)))
 	}
